@@ -130,11 +130,78 @@ def run(ctx):
         check_case(ctx, cs, {k[1]: v for k, v in defs.items() if k[0] == sk} if False else _Prefix(defs, sk))
     if len(muts) < 10:
         raise core.MachineryError("vacuous model: mutators seen %s" % muts)
+    resc = core.run_tlc("MC_C12c", "MC_C12c_%s.cfg" % ctx.tier, timeout=600, workers=4)
+    core.tlc_must_pass(resc, "MC_C12c")
+    ctx.add_tlc(resc, "container histories: reads, element additions, in-place element edits, sampling changes")
+    nc = sum(1 for tag, cs in resc.cases if check_container(ctx, cs))
+    ctx.extra["container_histories"] = nc
+    n += nc
     ctx.traces = n
     ctx.extra.update({"histories_ending_in_mutator": muts, "histories_total": len(res.cases)})
     ctx.rule = ("every history ending in a mutator is replayed (reads inside the history are performed), then all views are compared with a "
                 "twin built from the spec's definition; then the deep-copy independence checks (edit copy / edit original)")
     ctx.assumptions = ["1e-9 relative tolerance between object and twin", "containers are covered by the container sub-check"]
+
+
+# ---------------------------------------------------------------------------------------------- containers
+def _elem(i, version):
+    """element i (a small NURBS/B-spline curve) after `version` in-place edits (translations by (1, 1))"""
+    from geomdl import BSpline, NURBS, operations
+    c = (NURBS.Curve if i % 2 == 0 else BSpline.Curve)()
+    c.degree = 2
+    if i % 2 == 0:
+        c.ctrlptsw = [[0.0 + i, 0.0, 1.0], [2.0 + 2 * i, 4.0, 2.0], [2.0 + i, 0.5, 0.5], [3.0 + i, 3.0, 1.0]]
+    else:
+        c.ctrlpts = [[0.0 + i, 1.0], [1.0 + i, 3.0], [2.0 + i, 0.0], [4.0 + i, 2.0]]
+    c.knotvector = [0, 0, 0, 0.5, 1, 1, 1]
+    for _ in range(version):
+        operations.translate(c, [1.0, 1.0], inplace=True)
+    return c
+
+
+def check_container(ctx, cs):
+    from geomdl import multi, operations
+    ctx.full = cs
+    hist = cs["hist"]
+    last = hist[-1]
+    if last["a"] == "c_read":
+        return False
+    reads_before = sorted({s["v"] for s in hist[:-1] if s["a"] == "c_read"})
+    tg = ["container", "mutator=" + last["a"]] + ["read_before=" + v for v in reads_before]
+    small = {"hist": hist}
+    site = "multi.CurveContainer"
+    ctx.count(("container", hkey(hist)), sample=small)
+    try:
+        cont = multi.CurveContainer()
+        cont.sample_size = 5
+        cont.add(_elem(0, 0))
+        n = 1
+        for st in hist:
+            if st["a"] == "c_read":
+                _ = list(cont.evalpts) if st["v"] == "evalpts" else cont.bbox
+            elif st["a"] == "c_add":
+                cont.add(_elem(n, 0))
+                n += 1
+            elif st["a"] == "c_edit":
+                operations.translate(cont[st["i"] - 1], [1.0, 1.0], inplace=True)
+            elif st["a"] == "c_sample":
+                cont.sample_size = st["n"]
+        fresh = multi.CurveContainer()
+        fresh.sample_size = 5
+        for st in hist:
+            if st["a"] == "c_sample":
+                fresh.sample_size = st["n"]
+        for i, v in enumerate(cs["ver"]):
+            fresh.add(_elem(i, v))
+        for view in ("evalpts", "bbox"):
+            a = [list(p) for p in cont.evalpts] if view == "evalpts" else [list(x) for x in cont.bbox]
+            b = [list(p) for p in fresh.evalpts] if view == "evalpts" else [list(x) for x in fresh.bbox]
+            if not close_seq(a, b, 1e-9):
+                ctx.violate(site + "." + view, tg + ["view=" + view], small, {"view": view, "container_reports": str(a)[:200], "fresh_reports": str(b)[:200]})
+                break
+    except Exception as e:
+        ctx.violate(site, tg + ["raises"], small, {"exception": repr(e)[:300]})
+    return True
 
 
 class _Prefix:
@@ -147,4 +214,7 @@ class _Prefix:
 
 def replay(ctx, v):
     full = v["full"]
+    if "ver" in full:
+        check_container(ctx, full)
+        return
     check_case(ctx, full, {hkey(full["hist"][:-1]): full["prefix_def"]})
